@@ -48,12 +48,12 @@ COMPONENTS = {
              "trace memory", "scheduler"],
 }
 ASSUMPTIONS = [
-    "the network stack's purpose id is the EPR socket id (as in SquidASM)",
+    "the network stack's purpose id is a per-run bijection of the EPR socket id (identity as in SquidASM, +7, or 15-id)",
     "generic hardware config (on NV the SDK moves kept qubits, which is C09/C10 territory)",
     "a request is 'in a form the link-layer interface accepts' iff netqasm.qlink_compat.request_to_qlink_1_0 converts it",
 ]
 PROBES = ["type-K", "type-M", "type-R", "role-create", "role-recv", "max_time-set", "rotations-set", "named-basis",
-          "random-basis-set", "with-info", "keep-sequential-post-routine", "pairs>=2", "two-calls-same-socket", "three-remote-nodes"]
+          "random-basis-set", "with-info", "keep-sequential-post-routine", "request-refused-by-stack", "pairs>=2", "two-calls-same-socket", "three-remote-nodes"]
 
 GHOSTS = {"g7": 7, "g8": 8, "g9": 9}
 KINDS = ["create_keep", "create_keep_info", "create_measure", "create_rsp", "recv_keep", "recv_keep_info",
@@ -161,6 +161,10 @@ def run(ch: Choices, opts: Dict[str, Any]) -> Dict[str, Any]:
                     max_deliver_delay=0 if calm else 200, distinct_fields=True)
     link.validate = False   # the conversion is judged by the oracle below, not by the stub
     node = ControllerNode("n0", 0, qm, lambda: sched.now, flavour="vanilla", link=link)
+    from sim.props.c12 import install_purpose_map
+    if install_purpose_map(ch, node):
+        pass
+    pfun = node.stack.pfun
     calls = gen_calls(ch, avoid, calm)
     faults: Dict[str, int] = {}
     probes: Dict[str, int] = {}
@@ -218,10 +222,29 @@ def run(ch: Choices, opts: Dict[str, Any]) -> Dict[str, Any]:
         bump(probes, "keep-sequential-post-routine")
         return post
 
+    # injected fault (1 run in 5): a first create request, flushed on its own, is refused by the network stack; the
+    # subroutine aborts and the later calls (possibly on the same socket) must be unaffected
+    refuse_first = (not calm) and ch.flag(1, 5, "refuse")
+    node.stack.refuse = lambda req: getattr(req, "max_time", 0) == 7777
+
     def host_task():
         conn = SimConnection("app", node, max_qubits=5, hardware_config=GenericHardwareConfig(5),
                              epr_sockets=list(socks.values()))
         state["conn"] = conn
+        if refuse_first:
+            c0 = calls[ch.draw(len(calls), "refwhich")]
+            s0 = socks[(c0["peer"], c0["sock"])]
+            s0.create_measure(number=1 + ch.draw(2, "refn"), time_unit=TimeUnit.MICRO_SECONDS, max_time=7777)
+            conn.flush()
+            try:
+                for y in conn.drain():
+                    yield y
+                raise Violation("fault", "fault|refused-request-did-not-abort-the-subroutine", dict(sample))
+            except RuntimeError as e:
+                if "simulated fault" not in str(e):
+                    raise
+            bump(faults, "network-stack-refuses-request")
+            bump(probes, "request-refused-by-stack")
         results = []
         for c in calls:
             s = socks[(c["peer"], c["sock"])]
@@ -323,6 +346,7 @@ def run(ch: Choices, opts: Dict[str, Any]) -> Dict[str, Any]:
         raise Violation("request", "request|count", {"puts": len(puts), "creates": len(creates), **sample})
     for c, req in zip(creates, puts):
         want = expected_request(c)
+        want["purpose_id"] = pfun(c["sock"])     # what this node's stack assigns to the socket
         for field, wv in want.items():
             gv = getattr(req, field)
             if not same_value(gv, wv):
@@ -365,7 +389,7 @@ def run(ch: Choices, opts: Dict[str, Any]) -> Dict[str, Any]:
     um = node.unit_module(conn.app_id)
     for c, (rk, handles, infos) in zip(calls, state["results"]):
         role = "create" if c["kind"].startswith("create") else "recv"
-        key = (role, GHOSTS[c["peer"]], c["sock"])
+        key = (role, GHOSTS[c["peer"]], pfun(c["sock"]))
         off = cursor.get(key, 0)
         cursor[key] = off + c["number"]
         resp = by_key.get(key, [])[off:off + c["number"]]
